@@ -18,7 +18,7 @@ struct symsource_t final : datasource_t
     std::vector<std::vector<std::vector<double>>> V;       ///< [sample][feature][component] (float64 features)
     std::vector<std::vector<int>>                 L;       ///< [sample][feature] label (sclass) / bit pattern (mclass) / int value
 
-    static constexpr tensor_size_t classes = 3;
+    static inline tensor_size_t classes = 3; ///< class count of the categorical features (settable: boundary configurations)
     static tensor3d_dims_t sdims() { return make_dims(2, 1, 2); }
 
     symsource_t(std::string k, tensor_size_t samples, long tgt, int misspattern, const char* stem = "v")
@@ -43,6 +43,7 @@ struct symsource_t final : datasource_t
                 int lab = 0;
                 if (kinds[f] == 's') lab = static_cast<int>((s + static_cast<tensor_size_t>(f)) % classes);
                 if (kinds[f] == 'm') lab = static_cast<int>((s * 3 + static_cast<tensor_size_t>(f) + 1) % 8);
+                if (kinds[f] == 'u') lab = static_cast<int>((s * 37 + static_cast<tensor_size_t>(f) * 11 + 5) % 251);
                 if (kinds[f] == 'i') lab = static_cast<int>(s * 2 - 3 + static_cast<tensor_size_t>(f));
                 L[static_cast<size_t>(s)].push_back(lab);
             }
@@ -74,7 +75,8 @@ struct symsource_t final : datasource_t
             case 'r': fs.push_back(feature_t{name}.scalar(feature_type::float64)); break;
             case 'S': fs.push_back(feature_t{name}.scalar(feature_type::float64, sdims())); break;
             case 's': fs.push_back(feature_t{name}.sclass(static_cast<size_t>(classes))); break;
-            case 'm': fs.push_back(feature_t{name}.mclass(static_cast<size_t>(classes))); break;
+            case 'm': fs.push_back(feature_t{name}.mclass(static_cast<size_t>(3))); break;
+            case 'u': fs.push_back(feature_t{name}.scalar(feature_type::uint8)); break;
             default: fs.push_back(feature_t{name}.scalar(feature_type::int32)); break;
             }
         }
@@ -101,8 +103,8 @@ struct symsource_t final : datasource_t
                 case 's': set(s, fi, l); break;
                 case 'm':
                 {
-                    tensor_mem_t<int8_t, 1> t(classes);
-                    for (tensor_size_t k = 0; k < classes; ++k) t(k) = static_cast<int8_t>((l >> k) & 1);
+                    tensor_mem_t<int8_t, 1> t(3);
+                    for (tensor_size_t k = 0; k < 3; ++k) t(k) = static_cast<int8_t>((l >> k) & 1);
                     set(s, fi, t);
                     break;
                 }
